@@ -238,7 +238,8 @@ func memRunNode(t memTask, hist []model.Op, bound int, viol *[]drv.Violation, ru
 				add(v, fmt.Sprintf("GC at point %d (of %d..%d in the last op)", k, lastStart, lastEnd))
 				break
 			}
-			if bound >= 2 {
+			if bound >= 2 && len(hist) <= 3 {
+				// pairs of GC points for histories up to depth 3 (single points at the full depth)
 				for k2 := k + 1; k2 < lastEnd; k2++ {
 					gcReset(map[int]bool{k: true, k2: true})
 					_, v := engine.RunHistory(t.sc, t.cfg, t.prelude, hist)
